@@ -21,6 +21,7 @@ EXPLANATION = (
     "action type from __module__ and __qualname__; the decorator-factory arm passes its options through."
     "  C07.contain restricted to log_call, Action.finish and Action.__exit__ is part of this property (the wrapper's own code may not raise into the call)."
     '  Binding through inspect.signature(f).bind without follow_wrapped=False is a violation (signature follows __wrapped__); other binding mechanisms are not modelled (exit 2).'
+    "  A positional fast path dict(zip(names, args)) is decided by the facts that make it equal to Python's binding (plain function, no *args/**kwargs/keyword-only, no keywords, as many positionals as names)."
 )
 RULE = "obligation = rule instance bound to a call site / return / decorator of log_call; non-trivial = CFG paths examined"
 ASSUMPTIONS = [
@@ -107,15 +108,19 @@ def _positional_fast_path(chk, lc, w, cfg, stmt, v, va, kw):
             and isinstance(v.args[0].func, ast.Name) and v.args[0].func.id == "zip" and len(v.args[0].args) == 2):
         return None
     names_e, args_e = v.args[0].args
-    if not (isinstance(names_e, ast.Name) and isinstance(args_e, ast.Name) and args_e.id == va):
+    if not (isinstance(args_e, ast.Name) and args_e.id == va):
         return None
-    # where the names come from (decoration time, in log_call)
-    defs = [d for d in iter_own_nodes(lc.node) if isinstance(d, ast.Assign) and any(isinstance(t, ast.Name) and t.id == names_e.id for t in d.targets)]
-    real = [d for d in defs if not (isinstance(d.value, ast.Constant) and d.value.value is None)]
-    if len(real) != 1:
-        return None
-    src = real[0].value
-    inner = src.args[0] if isinstance(src, ast.Call) and isinstance(src.func, ast.Name) and src.func.id in ("tuple", "list") and len(src.args) == 1 else src
+    defs, real = [], []
+    if isinstance(names_e, ast.Name):
+        # where the names come from (decoration time, in log_call)
+        defs = [d for d in iter_own_nodes(lc.node) if isinstance(d, ast.Assign) and any(isinstance(t, ast.Name) and t.id == names_e.id for t in d.targets)]
+        real = [d for d in defs if not (isinstance(d.value, ast.Constant) and d.value.value is None)]
+        if len(real) != 1:
+            return None
+        src = real[0].value
+        inner = src.args[0] if isinstance(src, ast.Call) and isinstance(src.func, ast.Name) and src.func.id in ("tuple", "list") and len(src.args) == 1 else src
+    else:
+        inner = names_e
     if not (isinstance(inner, ast.Attribute) and inner.attr == "args" and isinstance(inner.value, ast.Name)):
         return None
     spec = inner.value.id
@@ -125,13 +130,15 @@ def _positional_fast_path(chk, lc, w, cfg, stmt, v, va, kw):
             and len(spec_vals[0].args) == 1 and isinstance(spec_vals[0].args[0], ast.Name) and spec_vals[0].args[0].id == fparam):
         return None
     lcfg = ctx.cfg(lc)
-    dn = [n for n in lcfg.live if n.ast is real[0]]
-    if not dn:
-        return None
     facts = []
-    for t, lab in lcfg.guards_of(dn[0]):
-        if t.kind == "test":
-            facts += [(unparse(e), truth) for e, truth in X.atomic_facts(t.exprs[0], lab)]
+    if real:
+        dn = [n for n in lcfg.live if n.ast is real[0]]
+        if not dn:
+            return None
+        for t, lab in lcfg.guards_of(dn[0]):
+            if t.kind == "test":
+                facts += [(unparse(e), truth) for e, truth in X.atomic_facts(t.exprs[0], lab)]
+    lc_env = X.single_assignments(lc)
     need = {"no *args": ("%s.varargs is None" % spec, True), "no **kwargs": ("%s.varkw is None" % spec, True), "no keyword-only parameters": ("%s.kwonlyargs" % spec, False),
             "a plain Python function": ("isfunction(%s)" % fparam, True)}
     missing = [k for k, f_ in need.items() if f_ not in facts]
@@ -139,12 +146,17 @@ def _positional_fast_path(chk, lc, w, cfg, stmt, v, va, kw):
     ufacts = []
     for t, lab in (cfg.guards_of(un[0]) if un else []):
         if t.kind == "test":
-            ufacts += [(unparse(e), truth) for e, truth in X.atomic_facts(t.exprs[0], lab)]
+            for e, truth in X.atomic_facts(t.exprs[0], lab):
+                ufacts.append((unparse(e), truth))
+                if isinstance(e, ast.Name) and e.id in lc_env and truth:
+                    # a boolean computed once at decoration time: what it stands for
+                    facts += [(unparse(e2), tr2) for e2, tr2 in X.atomic_facts(lc_env[e.id], "true")]
+    names_txt = unparse(names_e)
     if (kw, False) not in ufacts:
         missing.append("a call without keyword arguments")
-    if ("len(%s) == len(%s)" % (va, names_e.id), True) not in ufacts and ("len(%s) == len(%s)" % (names_e.id, va), True) not in ufacts:
+    if ("len(%s) == len(%s)" % (va, names_txt), True) not in ufacts and ("len(%s) == len(%s)" % (names_txt, va), True) not in ufacts:
         missing.append("as many positional arguments as parameters")
-    if ("%s is None" % names_e.id, False) not in ufacts and ("%s is not None" % names_e.id, True) not in ufacts and len(defs) > 1:
+    if isinstance(names_e, ast.Name) and ("%s is None" % names_e.id, False) not in ufacts and ("%s is not None" % names_e.id, True) not in ufacts and len(defs) > 1:
         missing.append("the fast path being enabled for this function")
     if not missing:
         return True
@@ -203,7 +215,9 @@ def rule_args(chk):
                     and not v.generators[0].ifs and isinstance(v.key, ast.Name) and unparse(v.value) == "%s[%s]" % (cav, v.key.id)
                 nn = [y for y in cfg.live if y.ast is x]
                 guarded = nn and any(t.kind == "test" and inc in unparse(t.exprs[0]) and "None" in unparse(t.exprs[0]) and lab == "true" for t, lab in cfg.guards_of(nn[0]))
-                if not (okf and guarded):
+                if okf and not guarded:
+                    problems.append("the logged arguments are recomputed as %s, not exactly when include_args is given (is not None)" % unparse(v)[:60])
+                elif not okf:
                     fast = _positional_fast_path(chk, lc, w, cfg, x, v, va, kw)
                     if fast is True:
                         continue
